@@ -432,7 +432,7 @@ func (m *Machine) recordViolation(id, kind, msg string, _ *Term) {
 		m.collisionOnly++
 		return
 	}
-	v := violation{ID: id, Kind: kind, Msg: msg, Inputs: model, Known: m.knownTag, CRCPinned: pinned, Sched: append([]string(nil), m.schedTrace...)}
+	v := violation{ID: id, Kind: kind, Msg: msg, Inputs: model, Known: m.knownTag, CRCPinned: pinned, Sched: append([]string(nil), m.schedTrace...), OSTrace: append([]string(nil), m.fsEvents...)}
 	for _, d := range m.trace {
 		if d.forked {
 			v.Path = append(v.Path, fmt.Sprintf("%s=%d", d.what, d.chosen))
